@@ -23,7 +23,7 @@ RULE = ("cases = curated + random-grammar assignments with >= 1 compressed outpu
 
 PLAN = {
     "quick": dict(shards=12, fmt=8, inp=3, rnd=1300, draws=3, jit_every=4, lattice=240),
-    "thorough": dict(shards=16, fmt=60, inp=4, rnd=20000, draws=4, jit_every=2, lattice=16000),
+    "thorough": dict(shards=16, fmt=60, inp=4, rnd=20000, draws=4, jit_every=2, lattice=4800),
 }
 
 
